@@ -187,6 +187,11 @@ func (p *Parser) Error(msg string, token *Token) *Error {
 			// Set to last token
 			if len(p.tokens) > 0 {
 				token = p.tokens[len(p.tokens)-1]
+			} else {
+				// No tokens at all (a tag without arguments): lastToken is
+				// the tag's name then. Without it the error has no position,
+				// and one from another template gets attached later on.
+				token = p.lastToken
 			}
 		}
 	}
